@@ -12,6 +12,9 @@
 (*                     this module that itself locks class k                *)
 (*   unlock-not-held   Unlock (direct or deferred) of a mutex not held      *)
 (*   wait-unlocked     cond.Wait with no mutex held                         *)
+(*   block-holding     a channel operation that can block, WaitGroup.Wait   *)
+(*                     or time.Sleep while a mutex is held (C11 / C12: the  *)
+(*                     other calls on the object wait for as long)          *)
 (* and prints every (held, acquired) pair for the lock-order check (C11).   *)
 (* Mutexes are identified by lock class (owner type + field path).          *)
 (* Branch conditions are ignored: every CFG path is considered feasible.    *)
@@ -100,6 +103,11 @@ Step ==
                                 ELSE "none"
                       /\ done' = TRUE
                       /\ UNCHANGED <<held, defr>>
+                 \* a channel send / receive that can block (not a clause of a select with a default), WaitGroup.Wait or
+                 \* time.Sleep while a mutex is held: everybody else who needs that mutex waits as long
+                 [] Op.op = "block" ->
+                      /\ bad' = IF held # <<>> THEN "block-holding " \o held[1][1] \o " (" \o Op.k \o ")" ELSE "none"
+                      /\ UNCHANGED <<held, defr, done>>
                  [] Op.op = "panic" -> done' = TRUE /\ UNCHANGED <<held, defr, bad>>
                  [] OTHER -> UNCHANGED <<held, defr, bad, done>>
        ELSE /\ \E s \in CFG[fn].blocks[blk].succs : blk' = s
